@@ -33,9 +33,19 @@ Fixpoint bytes_eqb (a b : list Z) : bool :=
   | _, _ => false
   end.
 
+(* img[off ..]: the bytes of the image from offset [off] on (nothing beyond the end).  [off] is counted down in Z
+   so that the predicate can be EVALUATED on images whose displacements are garbage near 2^32 without building
+   a unary number; it is skipn (Z.to_nat off) img (Proofs/C15Proofs.v from_off_eq) *)
+Fixpoint from_off (img : list Z) (off : Z) : list Z :=
+  if off <=? 0 then img
+  else match img with
+       | [] => []
+       | _ :: r => from_off r (off - 1)
+       end.
+
 (* the bytes [bs] occupy img[off, off + |bs|) *)
 Definition placed (img : list Z) (off : Z) (bs : list Z) : bool :=
-  (0 <=? off) && bytes_eqb (firstn (List.length bs) (skipn (Z.to_nat off) img)) bs.
+  (0 <=? off) && bytes_eqb (firstn (List.length bs) (from_off img off)) bs.
 
 (* the NUL-terminated string [s] starts at img[off] *)
 Definition str_at (img : list Z) (off : Z) (s : list Z) : bool :=
